@@ -10,6 +10,7 @@
 * PATENTS file, you can obtain it at https://www.aomedia.org/license/patent-license.
 */
 
+#include "EbVerifHooks.h"
 #include "EbDefinitions.h"
 #include "EbDecHandle.h"
 #include "EbDecUtils.h"
@@ -320,7 +321,11 @@ void dec_av1_loop_restoration_filter_row(EbDecHandle *dec_handle, int32_t sb_row
                 if (col_y >= tile_w_y - w_y)
                     nsync = 0;
                 while (*sb_lr_completed_in_prev_row < (sb_col_y + nsync))
+#ifdef SVT_AV1_VERIF
+                    SVT_VERIF_SPIN();
+#else
                     ;
+#endif
             }
         }
         int      sx = 0, sy = 0;
